@@ -6,6 +6,7 @@ import (
 	"go/ast"
 	"go/printer"
 	"go/token"
+	"sort"
 	"strconv"
 	"strings"
 )
@@ -346,6 +347,91 @@ func init() {
 		}
 		sb.WriteString("/-- PrepareFlush swaps the tables also when the immutable table is empty -/\n")
 		sb.WriteString("def prepareOnEmpty : Bool := " + c10Bool(onEmpty) + "\n\n")
+
+		// ---- step order of the three flush functions: calls and writes to `.immutable` in source order
+		flushEvents := func(fd *ast.FuncDecl) []string {
+			type ev struct {
+				pos token.Pos
+				s   string
+			}
+			var evs []ev
+			ast.Inspect(fd.Body, func(n ast.Node) bool {
+				switch x := n.(type) {
+				case *ast.FuncLit:
+					evs = append(evs, ev{x.Pos(), "func-literal"})
+					return false // the body of the WalkEntry callback is not a step of flush itself
+				case *ast.CallExpr:
+					evs = append(evs, ev{x.Pos(), "call:" + exprName(x.Fun)})
+				case *ast.AssignStmt:
+					for i, l := range x.Lhs {
+						if se, ok := l.(*ast.SelectorExpr); ok && se.Sel.Name == "immutable" && i < len(x.Rhs) {
+							evs = append(evs, ev{x.Pos(), "set:immutable=" + c10Src(fsm, x.Rhs[i])})
+						}
+					}
+					for _, r := range x.Rhs {
+						if se, ok := r.(*ast.SelectorExpr); ok && se.Sel.Name == "immutable" {
+							evs = append(evs, ev{x.Pos(), "read:immutable"})
+						}
+					}
+				case *ast.ReturnStmt:
+					if len(x.Results) == 1 {
+						if id, ok := x.Results[0].(*ast.Ident); ok {
+							evs = append(evs, ev{x.Pos(), "return:" + id.Name})
+						} else if _, ok := x.Results[0].(*ast.CallExpr); ok {
+							evs = append(evs, ev{x.Pos(), "return:call"})
+						}
+					}
+				}
+				return true
+			})
+			sort.SliceStable(evs, func(i, j int) bool { return evs[i].pos < evs[j].pos })
+			out := make([]string, len(evs))
+			for i, e := range evs {
+				out[i] = e.s
+			}
+			return out
+		}
+		for _, t := range []struct {
+			f                *ast.File
+			recv, name, lean string
+		}{{mid, "invertedIndex", "flush", "invFlushEvents"}, {mid, "forwardIndex", "flush", "fwdFlushEvents"}, {ks, "indexKVStore", "Flush", "dictFlushEvents"}} {
+			fd := FindFunc(t.f, t.recv, t.name)
+			if fd == nil {
+				return "", fmt.Errorf("%s.%s not found", t.recv, t.name)
+			}
+			sb.WriteString("def " + t.lean + " : List String := " + LeanStrList(flushEvents(fd)) + "\n")
+		}
+		// helpers of the stores that write `.immutable` (besides prepareFlush and flush themselves)
+		var immWriters []string
+		for _, f := range []*ast.File{mid, ks} {
+			for _, d := range f.Decls {
+				fd, ok := d.(*ast.FuncDecl)
+				if !ok || fd.Body == nil {
+					continue
+				}
+				writes := false
+				ast.Inspect(fd.Body, func(n ast.Node) bool {
+					if as, ok := n.(*ast.AssignStmt); ok {
+						for _, l := range as.Lhs {
+							if se, ok := l.(*ast.SelectorExpr); ok && se.Sel.Name == "immutable" {
+								writes = true
+							}
+						}
+					}
+					return true
+				})
+				if writes {
+					r := ""
+					if fd.Recv != nil && len(fd.Recv.List) == 1 {
+						r = lastIdent(fd.Recv.List[0].Type) + "."
+					}
+					immWriters = append(immWriters, r+fd.Name.Name)
+				}
+			}
+		}
+		sort.Strings(immWriters)
+		sb.WriteString("/-- every function that assigns a store's `immutable` field -/\n")
+		sb.WriteString("def immutableWriters : List String := " + LeanStrList(immWriters) + "\n\n")
 
 		// ---- Rewrite() formats
 		_, ex, err := ParseFile(repo, "sql/stmt/expr.go")
